@@ -754,7 +754,7 @@ def run(ctx, broken):
     n_ex = 4 if ctx.quick else 6
     n_rand_big = 40 if ctx.quick else 500
     n_rand_mid = 400 if ctx.quick else 20000
-    n_coq = 40 if ctx.quick else 500
+    n_coq = 30 if ctx.quick else 500
     nontriv = set()
     nontriv_count = [0]          # counted inside the exhaustive chunks (distinct by construction)
     sizes = {}
@@ -918,7 +918,9 @@ def run(ctx, broken):
     ctx.cov["distinct_nontrivial"] = len(nontriv) + nontriv_count[0]
     ctx.cov["rule"] = ("a case = (a, b, list of bounds); every bound runs FastLCSScore and FastLCSEGFScore with a fresh and with the shared "
                        "stale buffer, plus D1Or0; every pair is also run mirrored; non-trivial = both sequences have >= 2 symbols and differ; "
-                       "distinct = distinct (a, b, bounds); exhaustive part: all ordered pairs over {a,c,g,t} of length <= %d x bounds -1..%d" % (n_ex, n_ex + 1))
+                       "distinct = distinct (a, b, bounds); exhaustive part: all ordered pairs over {a,c,g,t} of length <= %d x bounds -1..%d; "
+                       "D1Or0-only exhaustive part (counted when it goes beyond the former): all ordered pairs of distinct sequences with >= 2 symbols "
+                       "of length <= %d; a call-site run counts as one case" % (n_ex, n_ex + 1, n_d1))
     ctx.cov["distribution"] = dict(sizes=sizes, answers=stats["dist"], coq_terms=len(terms))
     ctx.samples = [dict(case=dict(a=c["a"], b=c["b"], ms=c["ms"]), implementation=dict(r=o.get("r"), d=o.get("d")))
                    for c, o in list(zip(ccases, cobs))[:2] + list(zip(rcases, robs))[-2:]]
